@@ -109,6 +109,24 @@ func newShortID(existing map[string]*Task) (string, error) {
 	return "", errors.New("failed to generate unique id")
 }
 
+// idsInUse returns live items plus pruned ids still recorded in the log, so a new
+// id can never collide with a tombstone (replay would discard the new item).
+func idsInUse(graph *Graph) map[string]*Task {
+	if len(graph.Tombstones) == 0 {
+		return graph.Tasks
+	}
+	inUse := make(map[string]*Task, len(graph.Tasks)+len(graph.Tombstones))
+	for id, task := range graph.Tasks {
+		inUse[id] = task
+	}
+	for id := range graph.Tombstones {
+		if _, live := inUse[id]; !live {
+			inUse[id] = nil
+		}
+	}
+	return inUse
+}
+
 func shortID() (string, error) {
 	buf := make([]byte, 4)
 	if _, err := rand.Read(buf); err != nil {
